@@ -262,8 +262,9 @@ TEXT["C06"] = {
              "monitor's book of exchanges to the store, the timers and the exchange states). A "
              "monitor that tracks the exchanges of both directions by direction AND message ID, independently of the gateway's store, "
              "runs on every implementation trace: a lost acknowledgement outside the recorded interference class is a violation. "
-             "One clause without a theorem (glue, clause 5): a broker exchange that met an acknowledgement of an earlier exchange "
-             "with the same message ID while in its REGISTER step must still write its PUBLISH at the accepted REGACK, as the model does.",
+             "Theorem C06_register_step_only_interference_fails: a second monitor (Checkers/ChkGw6.v) books the REGISTER step of broker "
+             "exchanges; in EVERY history the PUBLISH is written at the client's accepted REGACK unless a client exchange with the "
+             "same message ID started during the step - acknowledgements of earlier exchanges with that ID never disturb it.",
     "note": GW_NOTE + " Partial: both components violate the property in the interference class (recorded findings); the positive theorems (gateway: all histories; client: every step from any state) show that nothing else fails; the schedule part of the quantifier is outside the event-atomic models.",
     "technique": "Coq refutation theorems with replayed witnesses + direction-aware exchange monitor on the implementation traces + differential execution",
 }
@@ -341,14 +342,15 @@ TEXT["C26"] = {
              "number of further cycles: Sleep sends DISCONNECT(duration), nothing reaches the client while it sleeps, at exactly "
              "now + duration the PINGREQ with the client ID is sent, every message reaches its handler exactly once in order, "
              "Sleep returns nil once (exact traces); C26_sleep_cycle_with_a_qos1_message - a QoS 1 message during a sleep shorter than the "
-             "gateway's RetryDelay: one PUBLISH at the wake-up, one handler invocation, one PUBACK at the broker; "
+             "gateway's RetryDelay: one PUBLISH at the wake-up, one handler invocation, one PUBACK at the broker (C26_sleep_cycle_with_qos1_messages: "
+             "any list of such messages with distinct IDs, delivered once each and in order); "
              "C26_sleep_cycle_with_a_qos2_message_holds_the_PUBREL - a QoS 2 message: PUBLISH and PUBREC at the wake-up, the broker's "
              "PUBREL is queued for the session that is asleep again, the handler runs at the NEXT wake-up (exact trace of what model "
              "and code do; an observation, see DESIGN.md section 11); "
              "C26_qos2_message_is_delivered_once_over_two_sleep_cycles - with a second cycle that wakes before the PUBREL retry the "
              "handler runs exactly once and the broker gets PUBREC then PUBCOMP; C26_refuted - two broker messages in flight on one not-yet-registered topic: only "
              "one reaches the handler (recorded finding, witness on the real code in every run). The other API calls, sleep "
-             "cycles with several QoS 1/2 messages or over a lossy link and handler delivery on wildcard / predefined topics are NOT proved: the monitor clauses (26,1)-(26,4) check them on the real client + real "
+             "cycles with several QoS 2 messages, mixed QoS or over a lossy link and handler delivery on wildcard / predefined topics are NOT proved: the monitor clauses (26,1)-(26,4) check them on the real client + real "
              "gateway against the composed model on generated programs incl. bursts in flight.",
     "note": COMMON_NOTE + " Partial: the theorems cover Connect / Ping / Register / Publish QoS 0-2 on short and registered names / Subscribe and Unsubscribe on short names / broker messages QoS 0-1 on them / Disconnect programs (no wildcards, no predefined topics, no time passing) and sleep cycles with QoS 0 broker messages on short topics; everything else of the property is tested against the composed model, not proved. The broker is a specification broker (MQTT 3.1.1 routing), not mosquitto.",
     "technique": "Coq theorems about the composed client+gateway+broker model for a class of API programs, a refutation witness, and end-to-end differential execution of the real client and gateway with a monitor",
